@@ -132,6 +132,7 @@ def run(chk: Check):
     for c, attr, f, dec, step, special in stepped_functions():
         stepinfo[f.name] = (dec, step, special)
     attr_cases = []  # (cid, attr, value, impl)
+    open_cases = set()  # assignments of kinds the statement leaves open
     meth_cases = []  # (cid, method, value|NOARG, impl)
     dist = {"assignments": 0, "method_calls": 0, "by_expectation": {}}
     NOARG = object()
@@ -207,6 +208,8 @@ def run(chk: Check):
                         chk.violation(f"{cls.__name__}.{attr}:multi-put", f"{cls.__name__}.{attr} = {v!r} transmitted {sent!r}", rep)
                 if coq_pyval(v) is not None:
                     attr_cases.append((cid, attr, v, res))
+                    if exp[0] == "open":
+                        open_cases.add((cid, attr, repr(v)))
 
         # the same on an instance for which the device has reported NOTHING yet (every attribute reads None),
         # each value written twice in a row: a write must not make anything readable, and a value that is
@@ -363,6 +366,10 @@ def run(chk: Check):
                     skipped += 1
                 elif r:
                     validated += 1
+                elif (cid, attr, repr(v)) in open_cases:
+                    # a kind of value the statement says nothing about: a difference between model and code here
+                    # does not touch any clause of the property (recorded, not an obligation)
+                    dist["open_kind_differences"] = dist.get("open_kind_differences", 0) + 1
                 else:
                     nb += 1
                     if nb <= 5:
